@@ -527,7 +527,8 @@ func cmdSelftest(args []string) int {
 	sort.Strings(metas)
 	bad := 0
 	ran := 0
-	self, _ := os.Executable()
+	vsnap, self, cleanV := snapshotVerif()
+	defer cleanV()
 	// one snapshot of /repo's working tree for the whole run (edits made to /repo while the corpus runs do not leak in)
 	base, _ := os.MkdirTemp("/var/tmp", "govc-st-base-")
 	defer os.RemoveAll(base)
@@ -590,7 +591,7 @@ func cmdSelftest(args []string) int {
 				return
 			}
 			c := exec.Command(self, "check", meta.Property, "--tier", "quick")
-			c.Env = append(os.Environ(), "GOVC_REPO="+repo, "GOVC_EVIDENCE_DIR="+filepath.Join(scratch, "ev"), "GOVC_VERIF="+verifDir(), "GOVC_REPLAY_DIR="+filepath.Join(scratch, "replays"))
+			c.Env = append(os.Environ(), "GOVC_REPO="+repo, "GOVC_EVIDENCE_DIR="+filepath.Join(scratch, "ev"), "GOVC_VERIF="+vsnap, "GOVC_REPLAY_DIR="+filepath.Join(scratch, "replays"))
 			out, err := c.CombinedOutput()
 			code := 0
 			if ee, ok := err.(*exec.ExitError); ok {
@@ -626,6 +627,22 @@ func cmdSelftest(args []string) int {
 	return 0
 }
 
+// snapshotVerif copies /verif (contracts, known findings, lock file, conformance tests) and the running binary to a
+// scratch directory, so that a long corpus run is not disturbed by work going on in /verif meanwhile.
+func snapshotVerif() (dir, self string, cleanup func()) {
+	dir, _ = os.MkdirTemp("/var/tmp", "govc-verif-snap-")
+	cleanup = func() { os.RemoveAll(dir) }
+	out, err := exec.Command("rsync", "-a", "--exclude", ".git", "--exclude", "replays", "--exclude", "evidence", "--exclude", "bin", "--exclude", "seeded/*/", verifDir()+"/", dir+"/").CombinedOutput()
+	if err != nil {
+		fmt.Printf("snapshot of %s failed: %v %s\n", verifDir(), err, out)
+	}
+	exe, _ := os.Executable()
+	self = filepath.Join(dir, "govc")
+	data, _ := os.ReadFile(exe)
+	_ = os.WriteFile(self, data, 0755)
+	return dir, self, cleanup
+}
+
 func indent(s string) string {
 	lines := strings.Split(strings.TrimSpace(s), "\n")
 	if len(lines) > 25 {
@@ -644,7 +661,8 @@ func cmdSeeded(args []string) int {
 	_ = fs.Parse(args)
 	dirs, _ := filepath.Glob(filepath.Join(verifDir(), "seeded", "*", "patch.diff"))
 	sort.Strings(dirs)
-	self, _ := os.Executable()
+	vsnap, self, cleanV := snapshotVerif()
+	defer cleanV()
 	type row struct {
 		Mutant     string   `json:"mutant"`
 		Property   string   `json:"property"`
@@ -701,7 +719,7 @@ func cmdSeeded(args []string) int {
 			}
 			for _, p := range plist {
 				c := exec.Command(self, "check", p, "--tier", "quick")
-				c.Env = append(os.Environ(), "GOVC_REPO="+repo, "GOVC_EVIDENCE_DIR="+filepath.Join(scratch, "ev"), "GOVC_VERIF="+verifDir(), "GOVC_REPLAY_DIR="+filepath.Join(scratch, "replays"))
+				c.Env = append(os.Environ(), "GOVC_REPO="+repo, "GOVC_EVIDENCE_DIR="+filepath.Join(scratch, "ev"), "GOVC_VERIF="+vsnap, "GOVC_REPLAY_DIR="+filepath.Join(scratch, "replays"))
 				out, err := c.CombinedOutput()
 				code := 0
 				if ee, ok := err.(*exec.ExitError); ok {
@@ -747,7 +765,9 @@ func cmdSeeded(args []string) int {
 		return rows[i].Property < rows[j].Property
 	})
 	data, _ := json.MarshalIndent(rows, "", " ")
-	_ = os.WriteFile(filepath.Join(verifDir(), "seeded", "RESULTS.json"), data, 0644)
+	if *only == "" {
+		_ = os.WriteFile(filepath.Join(verifDir(), "seeded", "RESULTS.json"), data, 0644)
+	}
 	return 0
 }
 
